@@ -21,7 +21,8 @@ var c19Texts = func() []string {
 		"S2F9 <F8 v0 v1> .", "S2F11 <I8 -9223372036854775808 v0> .", "S2F13 <U8 18446744073709551615> .", "S2F15 <L> .", "S2F15 <L[0]> .", "S2F17 <L[2] <L> <L>> .",
 		"S2F19 <A[2..5] v0> .", "S2F21 <A[..5] v0> .", "S2F23 <A[3] \"abc\"> .", "S2F25 <L v0 v1 ...> .", "S2F27 <L v0 <L v1 ...> ...>\n.\n\n", "S3F1 W\n<L[2]\n  <U1[1] 1>\n  <A \"x\">\n>\n.",
 		"S3F3 <I1 1> . S3F5 <I2 2> .", "S3F7 W H->E first . S3F8 H<-E second .", "S3F9 <L <A v0> ...> . S3F11 <L <A v0> ...> .", "S4F1 <U1[3] 1 2 3> .\t", "S4F3 <U2 0x10 0o17 0b11> .\r\n",
-		"S4F5 <L <U1 x[0]> <U1 x[1]>> .", "\ufeffS1F1 .", "\ufeffS5F3 W <L> .", "\fS5F3 W .", "\u00a0S2F1 <A \"x\"> .\u2028", "S1F1 .\u200b", "S4F7\n// c1\n<L // c2\n <U1 1> // c3\n> // c4\n. // c5\n", "S127F255 W .", "S5F1 W <A> .", "S5F3 <A 0x00 0x7F> .",
+		"S4F5 <L <U1 x[0]> <U1 x[1]>> .", "S2F7 <F4 0.1 1e-46 16777217 v0> .", "S2F9 <F8 0.1 1e-46 16777217 v0> .", "S2F11 <L <F4 0.1> <F8 0.1> <F4 0.1>> .",
+		"S6F1 <A \"LEFTOVER\" T> .", "S6F1 <A \"LEFT\" 65 $> .", "S6F1 <A \"abc\" \"unclosed> .", "S6F1 <L <A x> <A x>> .", "S6F1 <U1 256> <", "S6F3 <A \"ok\" 0x41> .", "S6F5 <U1 255> .", "\ufeffS1F1 .", "\ufeffS5F3 W <L> .", "\fS5F3 W .", "\u00a0S2F1 <A \"x\"> .\u2028", "S1F1 .\u200b", "S4F7\n// c1\n<L // c2\n <U1 1> // c3\n> // c4\n. // c5\n", "S127F255 W .", "S5F1 W <A> .", "S5F3 <A 0x00 0x7F> .",
 	}
 	// printed forms of small templates (reusing the names v0, v1, ... in every message)
 	ts := NewTreeScope(smlAtoms(), 2, 2, 1)
